@@ -159,7 +159,29 @@ def run(scn, H, execu):
             return H, out, st
         d = c12.compare(v, ea, vb, eb, 1e-8, st)
         st['instants'] += v.n_valid(ea)
-        if d is not None and d['what'] != 'length':
+        if d is not None and d['what'] == 'length':
+            d = None
+        # first run segment that ends at different instants in A and B (an
+        # early stop that fires in one execution only)
+        seg = None
+        for sa, sb in zip(ea['segments'], eb['segments']):
+            if sa['i1'] != sb['i1']:
+                seg = (sa, sb, min(sa['i1'], sb['i1']) - 1)
+                break
+        # whichever comes first decides where to look for an explanation
+        if seg is not None and (d is None or seg[2] <= d['k']):
+            sa, sb, kk = seg
+            if c12.fragile([(v, ea), (vb, eb)], max(kk, 0)):
+                st['threshold_fragile'] += 1
+                return H, out, st
+            if c12.amplifies_rounding(scn, execu, 1e-8):
+                st['discarded_unstable'] += 1
+                return H, out, st
+            out.append(Violation(PROP, 'history/segment-length', {
+                'epoch': ea['index'], 'A_ends_at': sa['i1'],
+                'B_ends_at': sb['i1'], 'stop': sa['stop']}))
+            return H, out, st
+        if d is not None:
             why = c12.fragile([(v, ea), (vb, eb)], d['k'])
             if why:
                 st['threshold_fragile'] += 1
@@ -170,21 +192,6 @@ def run(scn, H, execu):
             out.append(Violation(PROP, f"history/{d['what']}", dict(
                 d, epoch=ea['index'])))
             return H, out, st
-        # the common prefix agrees: segments must end at the same instants (an early stop that fires
-        # in one execution only shifts everything after it)
-        for sa, sb in zip(ea['segments'], eb['segments']):
-            if sa['i1'] != sb['i1']:
-                kk = min(sa['i1'], sb['i1']) - 1
-                if c12.fragile([(v, ea), (vb, eb)], max(kk, 0)):
-                    st['threshold_fragile'] += 1
-                    return H, out, st
-                if c12.amplifies_rounding(scn, execu, 1e-8):
-                    st['discarded_unstable'] += 1
-                    return H, out, st
-                out.append(Violation(PROP, 'history/segment-length', {
-                    'epoch': ea['index'], 'A_ends_at': sa['i1'],
-                    'B_ends_at': sb['i1'], 'stop': sa['stop']}))
-                return H, out, st
     if first_div is not None:
         # a differing op outcome without any divergence of the histories:
         # explained if a discrete decision of the last common instants is
